@@ -37,16 +37,28 @@ def tree_hash():
 
 
 def harness_sources(name):
-    srcs = [os.path.join(ROOT, "harness", name + ".cpp")]
-    srcs += sorted(glob.glob(os.path.join(ROOT, "harness", "vf", "*.hpp")))
-    return srcs
+    """The harness TU plus the vf/ headers it includes, transitively (other harnesses' helper headers do not matter)."""
+    hdir = os.path.join(ROOT, "harness")
+    seen, todo = [], [os.path.join(hdir, name + ".cpp")]
+    while todo:
+        f = todo.pop()
+        if f in seen or not os.path.exists(f):
+            continue
+        seen.append(f)
+        for m in re.finditer(r'#include\s+"((?:vf/)?[\w./-]+\.hpp)"', open(f, errors="replace").read()):
+            inc = m.group(1)
+            for cand in (os.path.join(hdir, inc), os.path.join(os.path.dirname(f), inc)):
+                if os.path.exists(cand):
+                    todo.append(os.path.normpath(cand))
+                    break
+    return [seen[0]] + sorted(seen[1:])
 
 
 FLAGS = {
-    "asan": ["-std=c++17", "-g", "-O1", "-fsanitize=address,undefined", "-fno-sanitize=alignment",
+    "asan": ["-std=c++17", "-g", "-O1", "-fsanitize=address,undefined", "-fno-sanitize=alignment,nonnull-attribute",
              "-fno-sanitize-recover=undefined", "-fno-omit-frame-pointer", "-DDATASKETCHES_VERIF", "-DVF_ASAN=1"],
     "fast": ["-std=c++17", "-g", "-O2", "-DDATASKETCHES_VERIF"],
-    "fuzz": ["-std=c++17", "-g", "-O1", "-fsanitize=fuzzer,address,undefined", "-fno-sanitize=alignment",
+    "fuzz": ["-std=c++17", "-g", "-O1", "-fsanitize=fuzzer,address,undefined", "-fno-sanitize=alignment,nonnull-attribute",
              "-fno-sanitize-recover=undefined", "-fno-omit-frame-pointer", "-DDATASKETCHES_VERIF", "-DVF_ASAN=1", "-DVF_FUZZ=1"],
 }
 
